@@ -14,7 +14,8 @@
       wherever the grammar allows (DESIGN.md, C07): a separator is kept although the oracle asks to omit
       it when the token that follows would continue the expression before it (`sep_required`), and the
       chain form is used only for an `als` that is a whole statement and is followed (after the
-      optional `;`) by a token that does not continue an expression. *)
+      optional `;`) by a token that does not continue an expression.  Under the `plain` layout it IS the
+      printer of spec/Printer.v (LayoutProofs.print_program_lay_plain). *)
 From NL.Model Require Import Parser.
 From NL.Spec Require Import Printer RenderSpec.
 Open Scope Z_scope.
@@ -79,8 +80,9 @@ End Printable.
 
 Record choice : Type := mkChoice {
   extra : nat;     (* redundant pairs of parentheses around this expression *)
-  omit : bool;     (* statement / list item / parameter: leave out the optional separator after it
-                      (for the last item of a list: do not write a trailing comma) *)
+  omit : bool;     (* statement, or list item / parameter that is not the last of its list: leave out
+                      the optional `;` / `,` after it *)
+  trail : bool;    (* last item / parameter of a list: write a trailing `,` after it *)
   chain : bool     (* expression statement `als c {..} anders { als .. }`: write `anders als ..` *)
 }.
 
@@ -90,7 +92,7 @@ Definition sub (lay : layout) (i : nat) : layout := fun q => lay (i :: q).
 Definition shift (ll : nat -> layout) : nat -> layout := fun i => ll (S i).
 
 (* the plain layout: nothing redundant, every separator written, no chain *)
-Definition plain : layout := fun _ => mkChoice 0 false false.
+Definition plain : layout := fun _ => mkChoice 0 false false false.
 
 (** * 3. Where separators are required *)
 
@@ -100,7 +102,7 @@ Definition continues (t : token) : bool := prec_lt PLowest (token_precedence t).
 
 (* DESIGN.md C07: the separator after a statement / item may not be left out when what comes before it
    ends in an expression and the token after it continues an expression *)
-Definition sep_required (ends_in_expr : bool) (next : token) : bool := ends_in_expr && continues next.
+Definition sep_required (ends_in_expr next_continues : bool) : bool := ends_in_expr && next_continues.
 
 (** * 4. The printer *)
 
@@ -115,20 +117,28 @@ Definition print_min (e : expr) (raw : prec -> prec -> list token) (p f : prec) 
 Definition with_extra (k : nat) (m : prec -> prec -> list token) (p f : prec) : list token :=
   match k with O => m p f | S _ => wrap k (m PLowest PLowest) end.
 
-(* the optional separator `k` after something printed with choice c; `cont`: the token that follows the
+(* the optional `;` after a statement printed with choice c; `cont`: the token that follows the
    separator continues an expression *)
-Definition opt_sep (k : ftoken) (c : choice) (ends_in_expr cont : bool) : list token :=
-  if omit c && negb (ends_in_expr && cont) then [] else [TFix k].
+Definition opt_semi (c : choice) (ends_in_expr cont : bool) : list token :=
+  if omit c && negb (sep_required ends_in_expr cont) then [] else [TFix KSemi].
+(* the optional `,` after a list item (which always ends in an expression) or a parameter (which is
+   never followed by a token that continues an expression) *)
+Definition opt_comma (c : choice) (last cont : bool) : list token :=
+  if last then (if trail c then [TFix KComma] else [])
+  else if omit c && negb cont then [] else [TFix KComma].
 
 Section Seq.
   Context {A : Type}.
-  (* pr lay cont x : x and its optional separator, when the token after them continues (cont) or not *)
-  Variable pr : layout -> bool -> A -> list token.
+  (* pr lay last cont x : x and its optional separator; last: x is the last item; cont: the token after x
+     and its separator continues an expression *)
+  Variable pr : layout -> bool -> bool -> A -> list token.
   (* items from left to right; item number i is laid out by ll i *)
   Fixpoint lay_seq (ll : nat -> layout) (xs : list A) {struct xs} : list token :=
     match xs with
     | [] => []
-    | x :: r => let tl := lay_seq (shift ll) r in pr (ll 0%nat) (continues (cur tl)) x ++ tl
+    | x :: r =>
+        let tl := lay_seq (shift ll) r in
+        pr (ll 0%nat) (match r with [] => true | _ => false end) (continues (cur tl)) x ++ tl
     end.
 End Seq.
 
@@ -137,7 +147,8 @@ Definition is_if (e : expr) : bool := match e with EIf _ _ _ => true | _ => fals
 Definition chainable (s : stmt) : bool := match s with SExpr e => is_if e | _ => false end.
 
 (* the chain form is asked for and allowed: lay is the oracle of the statement `SExpr (EIf c t (Some [s2]))`,
-   cont says whether the token after the statement (and its optional `;`) continues an expression *)
+   cont says whether the token after the statement (and its optional `;`) continues an expression;
+   neither the `als` itself (path [0]) nor the `als` of s2 (path [1; 0]) is put in redundant parentheses *)
 Definition use_chain (lay : layout) (cont : bool) (s2 : stmt) : bool :=
   chain (lay []) && negb cont && chainable s2
   && (extra (lay [0%nat]) =? 0)%nat && (extra (lay [1%nat; 0%nat]) =? 0)%nat.
@@ -146,10 +157,11 @@ Section PrintLay.
   Variable show_f : float -> text.
 
   Fixpoint print_expr_lay (lay : layout) (p f : prec) (e : expr) {struct e} : list token :=
-    let item (l : layout) (cont : bool) (x : expr) : list token :=
-      print_expr_lay l PLowest PLowest x ++ opt_sep KComma (l []) true cont in
-    let param (l : layout) (cont : bool) (n : text) : list token :=
-      TIdent n :: opt_sep KComma (l []) false cont in
+    let item (l : layout) (last cont : bool) (x : expr) : list token :=
+      print_expr_lay l PLowest PLowest x ++ opt_comma (l []) last cont in
+    let param (l : layout) (last cont : bool) (n : text) : list token :=
+      TIdent n :: opt_comma (l []) last cont in
+    let stm (l : layout) (last cont : bool) (s : stmt) : list token := print_stmt_lay l cont s in
     let raw (p f : prec) : list token :=
       match e with
       | EInfix l o r =>
@@ -163,18 +175,18 @@ Section PrintLay.
       | EBool b => [TFix (if b then KTrue else KFalse)]
       | EIf c t alt =>
           TFix KIf :: print_expr_lay (sub lay 0) PLowest PLowest c
-          ++ (TFix KOpenBrace :: lay_seq print_stmt_lay (sub (sub lay 1)) t ++ [TFix KCloseBrace])
+          ++ (TFix KOpenBrace :: lay_seq stm (sub (sub lay 1)) t ++ [TFix KCloseBrace])
           ++ match alt with
              | None => []
              | Some a =>
-                 TFix KElse :: TFix KOpenBrace :: lay_seq print_stmt_lay (sub (sub lay 2)) a
+                 TFix KElse :: TFix KOpenBrace :: lay_seq stm (sub (sub lay 2)) a
                  ++ [TFix KCloseBrace]
              end
       | EIdent s => [TIdent s]
       | EFunction name params body =>
           TFix KFunc :: match name with [] => [] | _ => [TIdent name] end
           ++ TFix KOpenParen :: lay_seq param (sub (sub lay 0)) params
-          ++ TFix KCloseParen :: TFix KOpenBrace :: lay_seq print_stmt_lay (sub (sub lay 1)) body
+          ++ TFix KCloseParen :: TFix KOpenBrace :: lay_seq stm (sub (sub lay 1)) body
           ++ [TFix KCloseBrace]
       | ECall h args =>
           print_expr_lay (sub lay 0) p (tok_prec KOpenParen) h
@@ -190,7 +202,7 @@ Section PrintLay.
           ++ TFix KOpenBracket :: print_expr_lay (sub lay 1) PLowest PLowest i ++ [TFix KCloseBracket]
       | EWhile c b =>
           TFix KWhile :: print_expr_lay (sub lay 0) PLowest PLowest c
-          ++ TFix KOpenBrace :: lay_seq print_stmt_lay (sub (sub lay 1)) b ++ [TFix KCloseBrace]
+          ++ TFix KOpenBrace :: lay_seq stm (sub (sub lay 1)) b ++ [TFix KCloseBrace]
       end in
     with_extra (extra (lay [])) (print_min e raw) p f
 
@@ -199,34 +211,36 @@ Section PrintLay.
     match s with
     | SLet n e =>
         TFix KDeclare :: TIdent n :: TFix KAssign :: print_expr_lay (sub lay 0) PLowest PLowest e
-        ++ opt_sep KSemi (lay []) true cont
+        ++ opt_semi (lay []) true cont
     | SReturn e =>
-        TFix KReturn :: print_expr_lay (sub lay 0) PLowest PLowest e ++ opt_sep KSemi (lay []) true cont
+        TFix KReturn :: print_expr_lay (sub lay 0) PLowest PLowest e ++ opt_semi (lay []) true cont
     | SExpr e =>
-        let default := print_expr_lay (sub lay 0) PLowest PLowest e ++ opt_sep KSemi (lay []) true cont in
+        let default := print_expr_lay (sub lay 0) PLowest PLowest e ++ opt_semi (lay []) true cont in
         match e with
         | EIf c t (Some (s2 :: nil)) =>
             if use_chain lay cont s2 then
               (* the `;` of the whole statement is the one written (or not) by the last link of the chain *)
               TFix KIf :: print_expr_lay (sub (sub lay 0) 0) PLowest PLowest c
-              ++ (TFix KOpenBrace :: lay_seq print_stmt_lay (sub (sub (sub lay 0) 1)) t ++ [TFix KCloseBrace])
+              ++ (TFix KOpenBrace :: lay_seq (fun l _ cn s' => print_stmt_lay l cn s') (sub (sub (sub lay 0) 1)) t ++ [TFix KCloseBrace])
               ++ TFix KElse :: print_stmt_lay (sub lay 1) cont s2
             else default
         | _ => default
         end
     | SBlock b =>
-        TFix KOpenBrace :: lay_seq print_stmt_lay (sub (sub lay 0)) b
-        ++ TFix KCloseBrace :: opt_sep KSemi (lay []) false cont
-    | SBreak => TFix KBreak :: opt_sep KSemi (lay []) false cont
-    | SContinue => TFix KContinue :: opt_sep KSemi (lay []) false cont
+        TFix KOpenBrace :: lay_seq (fun l _ cn s' => print_stmt_lay l cn s') (sub (sub lay 0)) b
+        ++ TFix KCloseBrace :: opt_semi (lay []) false cont
+    | SBreak => TFix KBreak :: opt_semi (lay []) false cont
+    | SContinue => TFix KContinue :: opt_semi (lay []) false cont
     end.
 
+  Definition print_stm_lay (l : layout) (last cont : bool) (s : stmt) : list token :=
+    print_stmt_lay l cont s.
   Definition print_stmts_lay (ll : nat -> layout) (b : block) : list token :=
-    lay_seq print_stmt_lay ll b.
-  Definition print_item_lay (l : layout) (cont : bool) (x : expr) : list token :=
-    print_expr_lay l PLowest PLowest x ++ opt_sep KComma (l []) true cont.
-  Definition print_param_lay (l : layout) (cont : bool) (n : text) : list token :=
-    TIdent n :: opt_sep KComma (l []) false cont.
+    lay_seq print_stm_lay ll b.
+  Definition print_item_lay (l : layout) (last cont : bool) (x : expr) : list token :=
+    print_expr_lay l PLowest PLowest x ++ opt_comma (l []) last cont.
+  Definition print_param_lay (l : layout) (last cont : bool) (n : text) : list token :=
+    TIdent n :: opt_comma (l []) last cont.
   Definition print_list_lay (ll : nat -> layout) (es : list expr) : list token :=
     lay_seq print_item_lay ll es.
   Definition print_params_lay (ll : nat -> layout) (ps : list text) : list token :=
